@@ -65,7 +65,7 @@ claim('C18', 'exception-escape set of the handler, CFG ordering (no state write 
       'need_fetch set exactly with a raise and on_missing_data fires iff need_fetch on every path; aggregate is '
       'max(agg_sv.get(k,0), v) and a suppression period starts from a copy of its first vector; on_timer sends iff necessary, '
       'suppression overridden only by agg_sv.get(id,0) < local over all local entries, steady state never suppressed; new_data '
-      '+1/own id/timer armed; sync Interest carries every local entry. the missing-data callback is the last effect of the handler (no timer / state write after it) and the periodic timer is restarted only when no emission is already due; Does not decide timers or suppression timing.',
+      '+1/own id/timer armed; sync Interest carries every local entry. the periodic timer is restarted only when no emission is already due; Does not decide timers or suppression timing.',
       'user callback on_missing_data does not raise; asyncio timer behaviour')
 
 claim('C14', 'default-argument lint, finite-domain dispatch evaluation over SignatureType, must-pass-through and provenance of key material, wiring checks of the validator composition',
